@@ -18,7 +18,7 @@ RULE = ("lines from two points (coordinates <= 1e3, >= 1e-3 apart), from point +
         "geometry of the defining data (point-line distance, orthogonal projection, transformed points, constructed ground "
         "truth for predicates) with residuals <= 1e-9 x data magnitude; predicates that take a tolerance are given one scaled "
         "to the data. Non-trivial: line not through the origin, direction not unit, not axis-aligned.")
-RULE = RULE + probes.RULE_TEXT + probes.VARIANT_TEXT
+RULE = RULE + probes.RULE_TEXT + probes.VARIANT_TEXT + probes.OWN_TEXT
 ASSUMPTIONS = ["the intersection predicate ^ / intersects() is not in the statement and is not judged",
                "'different' lines differ by at least 5% of the scale so that no predicate is asked a borderline question",
                "library convention: moment v = w x p for a point p of the line, plane n.x + d = 0"]
@@ -42,13 +42,14 @@ def s_line():
 
 def s_pair():
     return st.fixed_dictionaries({"kind": st.just("pair"), "p1": pt(), "w1": dirn(), "p2": pt(), "w2": dirn(),
-                                  "rel": st.sampled_from(["general", "parallel", "antiparallel", "intersecting", "coincident", "parallel_close"]),
+                                  "rel": st.sampled_from(["general", "parallel", "antiparallel", "intersecting", "coincident", "parallel_close", "nearly_parallel"]),
+                                  "angle": gens.logmag(-8, -3), "skewed": st.booleans(),
                                   "gap": gens.logmag(-9, 0),
                                   "k": gens.logmag(-2, 2), "lam": gens.fl(-5, 5), "off": dirn()})
 
 
 def check_case(case):
-    if case.get("kind") in ("hist", "aug", "variant"):
+    if case.get("kind") in ("hist", "aug", "variant", "own"):
         return probes.run(case, PROPERTY_ID)
     return {"line": _line, "pair": _pair}[case["kind"]](case)
 
@@ -252,6 +253,17 @@ def _pair(case):
             perp = np.cross(u1, [1.0, 0, 0]) if abs(u1[0]) < 0.9 else np.cross(u1, [0, 1.0, 0])
         perp = refs.unit(perp)
         p2 = p1 + perp * case.get("gap", 1e-3) * max(1.0, float(np.max(np.abs(p1)))) + u1 * case["lam"]
+    elif rel == "nearly_parallel":
+        # directions 1e-8 .. 1e-3 rad apart (10 .. 1e6 times the stated tolerance): NOT parallel, whichever sense; the
+        # values of distance / common perpendicular are ill-conditioned there and are not judged, only the predicates
+        perp = np.cross(u1, refs.unit(case["off"]))
+        if np.linalg.norm(perp) < 1e-2:
+            perp = np.cross(u1, [1.0, 0, 0]) if abs(u1[0]) < 0.9 else np.cross(u1, [0, 1.0, 0])
+        perp = refs.unit(perp)
+        th = case.get("angle", 1e-6)
+        w2 = (u1 * math.cos(th) + perp * math.sin(th)) * float(np.linalg.norm(w1)) * k * (-1.0 if case["lam"] < 0 else 1.0)
+        if not case.get("skewed", True):
+            p2 = p1 + u1 * case["lam"]
     elif rel == "antiparallel":
         w2 = -w1 * k
     elif rel == "intersecting":
@@ -271,6 +283,19 @@ def _pair(case):
         return c.out
     par = rel in ("parallel", "antiparallel", "coincident", "parallel_close")
     n1, n2 = float(np.linalg.norm(w1)), float(np.linalg.norm(w2))
+    if rel == "nearly_parallel":
+        c.feat(angle=case.get("angle", 1e-6))
+        for site, f in (("isparallel", lambda: l1.isparallel(l2)), ("|", lambda: l1 | l2), ("|/swapped", lambda: l2 | l1)):
+            okp, r = c.lib(site, f)
+            if okp:
+                c.true("nearly_parallel/" + site, bool(r) is False, "%s says parallel for directions %.3g rad apart" % (site, case.get("angle", 1e-6)))
+        okc, cp = c.lib("commonperp", l1.commonperp, l2)
+        if okc:
+            c.true("nearly_parallel/commonperp", cp is not None, "commonperp returned None for directions %.3g rad apart" % case.get("angle", 1e-6))
+        okx, rx = c.lib("^", lambda: l1 ^ l2)
+        if okx:
+            c.true("^/bool", isinstance(rx, (bool, np.bool_)), "l1 ^ l2 gave %r (%s)" % (rx, type(rx).__name__))
+        return c.out
     # parallelism
     okp, r = c.lib("isparallel", lambda: l1.isparallel(l2, tol=TOL * max(1.0, n1 * n2)))
     if okp:
@@ -278,6 +303,10 @@ def _pair(case):
     okp, r = c.lib("|", lambda: l1 | l2)
     if okp:
         c.true("|", bool(r) == par, "l1 | l2 gave %r for %s lines (|w1|=%.3g |w2|=%.3g)" % (r, rel, n1, n2), w1len=n1, w2len=n2)
+    # the intersection predicate answers with a bool for every relation (its value is not judged here)
+    okx, rx = c.lib("^", lambda: l1 ^ l2)
+    if okx:
+        c.true("^/bool", isinstance(rx, (bool, np.bool_)), "l1 ^ l2 gave %r (%s) for %s lines" % (rx, type(rx).__name__, rel))
     # distance
     if par:
         dtrue = float(np.linalg.norm(np.cross(u1, p2 - p1)))
@@ -324,7 +353,7 @@ def _pair(case):
 
 
 def classify(case):
-    if case.get("kind") in ("hist", "aug", "variant"):
+    if case.get("kind") in ("hist", "aug", "variant", "own"):
         return probes.classify(case)
     if case["kind"] == "line":
         p, w = case["p"], case["w"]
